@@ -3,7 +3,7 @@
    providerapi.Service + protovalidate validator as BidProcessor, the real preconfcontract over a
    recording chain client, driven by a scripted engine.  Definitions only. *)
 From Coq Require Import String List NArith ZArith Bool.
-From MevVerif Require Import lib.Bytes lib.Abi lib.Keccak model.Rules model.ProviderSvc model.PreconfProvider.
+From MevVerif Require Import lib.Bytes lib.Abi lib.Keccak gen.Generated model.Rules model.ProviderSvc model.PreconfProvider.
 Import ListNotations.
 Open Scope N_scope.
 
@@ -16,11 +16,22 @@ Record obs := { o_rets : list (N * N);                 (* handler, return code *
                 o_sends : list (bytes * bytes * bool); (* destination, calldata, result ok *)
                 o_writes : list write_obs;             (* commitments written to bidders' streams *)
                 o_pending : N }.                       (* entries left in bidsInProcess *)
-Record case := { id : N; contract : bytes; evs : list event; ob : obs }.
+(* timed cases (outer context without deadline): evs_after was issued timed_at ms after the handler
+   started; the model orders it against the handler's own deadline, the literal of handleBid *)
+Record case := { id : N; contract : bytes; evs : list event; timed_at : option N; evs_after : list event; ob : obs }.
+
+Definition deadline_ms : N :=
+  match c01_deadline_ns with [ns] => Z.to_N (ns / 1000000) | _ => 0 end.
+Definition all_evs (c : case) : list event :=
+  match timed_at c with
+  | None => evs c ++ evs_after c
+  | Some t => if t <? deadline_ms then evs c ++ evs_after c ++ [DeadlineFire 1]
+              else evs c ++ [DeadlineFire 1] ++ evs_after c
+  end.
 
 Definition wiring_of (c : case) : wiring := node_wiring (contract c).
 Definition model_state (c : case) : st :=
-  PreconfProvider.run keccak256 rules_validators (wiring_of c) (evs c).
+  PreconfProvider.run keccak256 rules_validators (wiring_of c) (all_evs c).
 
 Definition ret_code (r : retclass) : N :=
   match r with
@@ -47,7 +58,7 @@ Definition arrivals (l : list event) : list (N * (Z * arrive_oracle)) :=
 (* --- projection of the model ------------------------------------------------------------------- *)
 Definition chron (s : st) : list heffect := rev (heff s).
 Definition m_rets (c : case) (s : st) : list (N * N) :=
-  map (fun a => (fst a, match nget (fst a) (hs s) with Some (HDone r) => ret_code r | _ => 99 end)) (arrivals (evs c)).
+  map (fun a => (fst a, match nget (fst a) (hs s) with Some (HDone r) => ret_code r | _ => 99 end)) (arrivals (all_evs c)).
 Definition m_signed (s : st) : list bytes :=
   flat_map (fun e => match e with HSign _ d => [d] | _ => [] end) (chron s).
 Definition m_sends (s : st) : list (bytes * bytes * bool) :=
@@ -102,31 +113,33 @@ Definition failing_gate (c : case) (h : N) (role : Z) (o : arrive_oracle) : opti
       | VOk _ =>
           if negb (o_allow o) then Some "allowance"%string
           else if negb (vbid rules_validators (to_engine b)) then Some "format"%string
-          else if negb (accepted_in (evs c) (b_dig b)) then Some "decision"%string
-          else if negb (accepted_in (before_deadline h (evs c)) (b_dig b)) then Some "deadline"%string
+          else if negb (accepted_in (all_evs c) (b_dig b)) then Some "decision"%string
+          else if negb (accepted_in (before_deadline h (all_evs c)) (b_dig b)) then Some "deadline"%string
           else None
       end
   end.
 
 Definition handler_bid (c : case) (h : N) : option bid :=
-  match nget h (arrivals (evs c)) with Some (_, o) => o_read o | None => None end.
+  match nget h (arrivals (all_evs c)) with Some (_, o) => o_read o | None => None end.
 
 (* effects are attributed to handlers: a written commitment to the handler of the stream; signatures
    and transactions to the handlers whose gates all hold (there must be at least as many of them) *)
 Definition passing (c : case) : list N :=
   flat_map (fun a => match failing_gate c (fst a) (fst (snd a)) (snd (snd a)) with None => [fst a] | Some _ => [] end)
-           (arrivals (evs c)).
+           (arrivals (all_evs c)).
 Definition first_failure (c : case) : string :=
   match flat_map (fun a => match failing_gate c (fst a) (fst (snd a)) (snd (snd a)) with
-                           | Some k => [k] | None => [] end) (arrivals (evs c)) with
+                           | Some k => [k] | None => [] end) (arrivals (all_evs c)) with
   | k :: _ => k
   | [] => "decision"%string
   end.
 
 Definition violation (c : case) : option string :=
   let o := ob c in
+  (* return code 97: the handler was still running 2.5 s after its own deadline *)
+  if existsb (fun r => snd r =? 97) (o_rets o) then Some "effect-without-gate:deadline-hang"%string else
   (* a commitment written on a stream whose handler fails a gate, or embedding another bid *)
-  match flat_map (fun w => match nget (wo_h w) (arrivals (evs c)) with
+  match flat_map (fun w => match nget (wo_h w) (arrivals (all_evs c)) with
                            | Some (role, ao) =>
                                match failing_gate c (wo_h w) role ao with
                                | Some k => [String.append "effect-without-gate:" k]
@@ -155,4 +168,4 @@ Definition violations (cs : list case) : list (N * string) :=
 
 (* non-trivial: a handler arrived and either some gate refuses or the accepted path ran *)
 Definition nontrivial (cs : list case) : list N :=
-  map id (filter (fun c => match arrivals (evs c) with [] => false | _ => true end) cs).
+  map id (filter (fun c => match arrivals (all_evs c) with [] => false | _ => true end) cs).
